@@ -87,6 +87,12 @@ pub struct ArenaState {
     pub exhausted: bool,
     /// allocation-failure injection: when > 0, counts tracked allocations down;
     /// the one that brings it to 0 fails (returns null) once
+    /// RcBox allocations (context `New`) are recycled LIFO for the next request
+    /// of the same layout, as a real allocator would: a stale address then names
+    /// a *new live object* instead of unmapped memory
+    pub recycle: bool,
+    pub n_recycled: u32,
+    pub n_reused: u32,
     pub fail_in: u64,
     /// an injected failure has happened and the library call has not returned yet
     pub fail_fired: bool,
@@ -119,11 +125,15 @@ pub static mut ST: ArenaState = ArenaState {
     n_free: 0,
     live: 0,
     exhausted: false,
+    recycle: false,
+    n_recycled: 0,
+    n_reused: 0,
     fail_in: 0,
     fail_fired: false,
     error: None,
 };
 
+static mut RECYCLE: [u32; 64] = [0; 64];
 static mut BLOCKS: *mut Block = std::ptr::null_mut();
 static mut PAGE2BLOCK: *mut u32 = std::ptr::null_mut();
 
@@ -222,8 +232,32 @@ pub fn block_of(p: usize) -> Option<usize> {
     }
 }
 
+#[allow(static_mut_refs)]
 unsafe fn arena_alloc(layout: Layout) -> *mut u8 {
     let s = st();
+    if s.recycle && s.ctx_kind == CtxKind::New {
+        let n = s.n_recycled as usize;
+        for k in (0..n).rev() {
+            let idx = RECYCLE[k] as usize;
+            let b = &mut *BLOCKS.add(idx);
+            if b.size == layout.size() && b.align == layout.align() {
+                RECYCLE.copy_within(k + 1..n, k);
+                s.n_recycled -= 1;
+                s.n_reused += 1;
+                b.freed = false;
+                b.kind = s.ctx_kind;
+                b.a = s.ctx_a;
+                b.b = s.ctx_b;
+                b.op = s.ctx_op;
+                b.alive_mask = s.ctx_alive;
+                b.freed_op = 0;
+                s.n_alloc += 1;
+                s.live += 1;
+                std::ptr::write_bytes(b.addr as *mut u8, 0x5C, layout.size());
+                return b.addr as *mut u8;
+            }
+        }
+    }
     let size = layout.size().max(1);
     let align = layout.align().max(8);
     let (gap, off) = if s.perturb {
@@ -310,6 +344,13 @@ unsafe fn arena_free(ptr: *mut u8, layout: Layout) {
             b.freed_op = s.ctx_op;
             s.n_free += 1;
             s.live -= 1;
+            #[allow(static_mut_refs)]
+            if s.recycle && b.kind == CtxKind::New && (s.n_recycled as usize) < RECYCLE.len() {
+                // stays mapped: it will be handed out again
+                RECYCLE[s.n_recycled as usize] = idx as u32;
+                s.n_recycled += 1;
+                return;
+            }
             libc::mprotect(
                 (ARENA_BASE + b.page0 as usize * PAGE) as *mut libc::c_void,
                 b.npages as usize * PAGE,
